@@ -147,9 +147,12 @@ static Verdict c16_check(const KV &c, Ctx &ctx) {
     ctx.st.cls("c16-key/hmac-streebog/" + std::to_string(kl));
   } else {
     if (key.size() > 200) key.resize(200);
-    if (salt.size() > 100) salt.resize(100);
+    if (salt.size() > 100 && !c.has("saltabs")) salt.resize(100);
     uint64_t it = 1 + (uint64_t)c.geti("iters") % 50;
-    size_t dk = 1 + (size_t)c.geti("dklen") % 100;
+    size_t dk = c.has("dkabs") ? (size_t)c.geti("dkabs") : 1 + (size_t)c.geti("dklen") % 100;
+    if (dk < 1) dk = 1;
+    if (dk > 8192) dk = 8192;
+    if (c.has("saltabs") && salt.size() < (size_t)c.geti("saltabs")) salt.resize((size_t)c.geti("saltabs") > 300 ? 300 : (size_t)c.geti("saltabs"), 's');
     Exact p(key, off), s(salt, (off + 7) & 15);
     Bytes o(dk, '\0');
     Exact ob(o, (off + 1) & 15);
@@ -207,6 +210,38 @@ static int c16_grid(Ctx &ctx) {
       }
       ctx.st.cls(std::string("c16-grid-residue/") + PRIM_NAME[prim] + "/" + std::to_string(len % vfp_block_len(prim)));
     }
+  // PBKDF2: salt length 0..130 x iteration counts x output lengths 1..100 and the multiples of 32 its callers use
+  // (yescrypt/scrypt call it with c = 1 and dkLen = 128*r*p).  Quick: c in {1,2,3,50}; thorough: every c in 1..50.
+  {
+    std::vector<long long> its;
+    if (ctx.tier.thorough) for (long long i = 0; i < 50; i++) its.push_back(i);
+    else its = {0, 1, 2, 49};
+    std::vector<long long> dks;
+    for (long long d = 1; d <= 100; d++) dks.push_back(d);
+    for (long long d : {128, 160, 256, 384, 1024, 4096}) dks.push_back(d);
+    for (long long sl = 0; sl <= 130; sl++)
+      for (long long it : its) {
+        if ((idx++ % (size_t)ctx.nshards) != (size_t)ctx.shard) continue;
+        for (long long dk : dks) {
+          if (it >= 3 && dk > 100) continue;
+          KV c;
+          c.seti("prim", P_PBKDF2);
+          c.set("key", pool.substr(300 + (size_t)(sl * 7 + dk) % 90, (size_t)((sl * 3 + dk) % 201)));
+          c.set("salt", pool.substr(600, (size_t)sl));
+          c.seti("saltabs", sl);
+          c.seti("iters", it);
+          c.seti("dkabs", dk);
+          c.seti("off", (sl + dk) & 15);
+          ctx.st.evaluations++;
+          Verdict v = c16_check(c, ctx);
+          if (!v.empty()) {
+            ctx.current(c);
+            ctx.fail(c, v);
+            return 1;
+          }
+        }
+      }
+  }
   // MACs and PBKDF2: every message length 0..maxlen/every key length 0..200
   for (int prim = P_HMAC_SHA1; prim < P_COUNT; prim++)
     for (size_t len = 0; len <= (prim == P_PBKDF2 ? 200 : maxlen); len++) {
@@ -476,8 +511,12 @@ static int c16_run(Ctx &ctx) {
     size_t kl = g::coin(1, 3) ? (size_t)g::oneof<int>({0, 1, 20, 32, 63, 64, 65, 127, 128, 129, 200}) : (size_t)g::pick(0, 200);
     c.set("key", g::rbytes(kl, 0));
     c.set("salt", g::rbytes((size_t)g::pick(0, 100), 0));
-    c.seti("iters", g::pick(0, 49));
+    c.seti("iters", g::coin(1, 3) ? 0 : g::pick(0, 49));
     c.seti("dklen", g::pick(0, 99));
+    if (prim == P_PBKDF2 && g::coin(1, 2)) {
+      c.seti("dkabs", 32 * g::pick(1, 64));
+      c.seti("saltabs", g::pick(0, 200));
+    }
     c.seti("off", g::pick(0, 15));
     return c;
   });
